@@ -279,7 +279,7 @@ Proof.
     apply (Sim_update i T Dr B (l_ctr (i_st i) + 1) c' _ HS); [lia | apply HB; reflexivity | | auto].
     apply (keeps_cache_inv i T Dr B _ c' J HS); [lia|]. intros a b r0 H. destruct (Kp a b r0 H) as [Old|Tm]; [left; exact Old | right; left; exact Tm].
   - (* restart *)
-    destruct (restart_step cap ep lam vals Hvals J K HJ i T Dr B HS Hff) as [i' [E [HS' C0]]].
+    destruct (restart_step cap ep lam vals Hvals J K HJ [] (fun _ => None) (fun _ _ _ _ => eq_refl) i T Dr B HS Hff) as [i' [E [HS' C0]]].
     eexists _, i'. split; [exact E|]. split; [exact HS' | lia].
   - destruct OK.
   - (* merged clock probe *)
